@@ -138,13 +138,22 @@ def bind(chk: Check, tier: str, seed: int):
     judged = [r for r in recs if not (r["ret"] == "err" and r["id"] in never)]
     jm = [m for r, m in zip(recs, meta) if not (r["ret"] == "err" and r["id"] in never)]
     bad = validate("C02", judged, wd)
+    # a refusal names no field: a single-field boundary payload attributes it to that field's raw value; a payload
+    # combining several boundary values is attributed to a component that is refused on its own (same input class),
+    # and stays a class of its own when no component is
+    refused_alone = {(judged[i]["id"], jm[i][1]) for i, vs in bad for v in vs
+                     if v["f"] == 0 and ":" in jm[i][1] and "+" not in jm[i][1]}
     for i, vs in bad:
         d = next(x for x in db["defs"] if x["id"] == judged[i]["id"])
         for v in vs:
             fid = d["fields"][v["f"] - 1]["id"] if v["f"] > 0 else "-"
             tag = jm[i][1]
-            if v["f"] == 0 and ":" in tag and "+" not in tag:       # refusal on a single-field boundary payload
-                fid = d["fields"][int(tag.split(":")[0]) - 1]["id"] + ":" + tag.split(":")[1]
+            if v["f"] == 0 and ":" in tag:
+                parts = [t for t in tag.split("+") if ":" in t]
+                if len(parts) > 1:
+                    parts = [t for t in parts if (d["id"], t) in refused_alone][:1]
+                if len(parts) == 1:
+                    fid = d["fields"][int(parts[0].split(":")[0]) - 1]["id"] + ":" + parts[0].split(":")[1]
             chk.violation(f"{v['c']}/{d['id']}/{fid}",
                           f"{d['id']} payload {bytes(judged[i]['p']).hex()} re-encodes to "
                           f"{bytes(judged[i]['e']).hex() or judged[i]['err']} ({jm[i][1]})",
